@@ -34,6 +34,27 @@ def _has_null_cells(table):
     return any(c is None for t in table["columns"] for c in t["cells"])
 
 
+def _result_has_nulls(res):
+    try:
+        return bool(res.isna().to_numpy().any())
+    except Exception:
+        return False
+
+
+def _check_names(errs):
+    out = []
+    for x in errs:
+        c = getattr(x, "check", None)
+        out.append(str(getattr(c, "error", None) or getattr(c, "name", None) or c))
+    return sorted(set(out))
+
+
+def _aggregate_checks(spec):
+    out = [c["kind"] for col in spec.get("columns", []) for c in col.get("checks", [])]
+    out += [c["kind"] for c in spec.get("checks", [])]
+    return [k for k in out if k == "unique_values_eq"]
+
+
 def evaluate(case):
     ev = Eval()
     spec, table = case["spec"], case["table"]
@@ -69,9 +90,10 @@ def evaluate(case):
         errs = getattr(o2["exc"], "schema_errors", [o2["exc"]])
         comps = sorted({type(getattr(x, "schema", None)).__name__ for x in errs})
         null_dup = any(getattr(x.reason_code, "name", "") in ("SERIES_CONTAINS_DUPLICATES", "DUPLICATES") for x in errs) and \
-            _has_null_cells(table)
+            (_has_null_cells(table) or _result_has_nulls(res))
         ev.add(f"returned-object-violates-schema{drop}:" + "+".join(o2.get("reasons", [])),
-               {"ops": ops, "components": comps, "null_dup": null_dup, "msg": str(o2.get("exc"))[:400]})
+               {"ops": ops, "components": comps, "null_dup": null_dup, "checks": _check_names(errs),
+                "msg": str(o2.get("exc"))[:400]})
     elif o2["kind"] == "internal":
         ev.labels.append("strip-validate-internal")
     # (1b) reference model on the object read back
@@ -80,7 +102,8 @@ def evaluate(case):
         ref = refmodel.ref_validate(stripped, t2)
         if not ref.accept:
             comps = sorted({"Index" if "<index>" in repr(e.where) else "Column" for e in ref.errors})
-            null_dup = any(e.reason in ("SERIES_CONTAINS_DUPLICATES", "DUPLICATES") for e in ref.errors) and _has_null_cells(table)
+            null_dup = any(e.reason in ("SERIES_CONTAINS_DUPLICATES", "DUPLICATES") for e in ref.errors) and \
+                (_has_null_cells(table) or _has_null_cells(t2))
             ev.add(f"returned-object-violates-reference{drop}:" + "+".join(ref.reasons),
                    {"ops": ops, "components": comps, "null_dup": null_dup,
                     "errors": [(e.key(), e.rows) for e in ref.errors][:5]})
@@ -90,7 +113,8 @@ def evaluate(case):
     snap = fp.snapshot(res)
     o3 = fp.outcome(lambda: schema.validate(res, lazy=lazy))
     if o3["kind"] in ("SchemaError", "SchemaErrors"):
-        ev.add("revalidation-of-result-rejected:" + "+".join(o3.get("reasons", [])), {"ops": ops, "msg": str(o3.get("exc"))[:300]})
+        ev.add("revalidation-of-result-rejected:" + "+".join(o3.get("reasons", [])),
+               {"ops": ops, "checks": _check_names(getattr(o3["exc"], "schema_errors", [o3["exc"]])), "msg": str(o3.get("exc"))[:300]})
     elif o3["kind"] == "ok":
         try:
             if fp.snapshot(o3["value"]) != snap:
@@ -116,12 +140,45 @@ def _kf_drop_nulldup(family, case, disc):
             and set(disc.kind.split(":")[-1].split("+")) <= {"SERIES_CONTAINS_DUPLICATES", "DUPLICATES"})
 
 
+@known.finding("C03/drop_invalid_rows-aggregate-check-broken-by-dropping")
+def _kf_drop_aggregate(family, case, disc):
+    """unique_values_eq holds (or is skipped) on the input but fails on the result because rows holding some of the
+    required values were dropped for another reason; the check is not re-run on the result."""
+    d = disc.detail if isinstance(disc.detail, dict) else {}
+    if not (case["spec"].get("drop_invalid_rows") and _aggregate_checks(case["spec"])):
+        return False
+    reasons = set(disc.kind.split(":")[-1].split("+"))
+    if reasons != {"DATAFRAME_CHECK"}:
+        return False
+    # errors of the Index component may ride along (C03/drop_invalid_rows-keeps-rows-with-invalid-index-label: the
+    # wrong row is dropped, which is often what removes a required value)
+    ixs = case["spec"].get("index")
+    ix_kinds = [c["kind"] for l in ((ixs["multi"] if "multi" in ixs else [ixs]) if ixs else []) for c in l.get("checks", [])]
+    if disc.kind.startswith("returned-object-violates-reference:drop:"):
+        errs = [e for e in d.get("errors", []) if "<index>" not in str(e[0]) or not ix_kinds]
+        return bool(errs) and all("unique_values_eq" in str(e[0]) for e in errs)
+    if disc.kind.startswith("returned-object-violates-schema:drop:") or disc.kind.startswith("revalidation-of-result-rejected:"):
+        checks = d.get("checks", [])
+        rest = [c for c in checks if not c.startswith("unique_values_eq")]
+        return len(rest) < len(checks) and all(any(c.startswith(k + "(") for k in ix_kinds) for c in rest)
+    return False
+
+
 FAMILIES = [
     Family("pandas", evaluate, strategy=lambda: gen.parser_case(), n_quick=500, n_thorough=4000, shards_quick=4,
            shards_thorough=16,
            required_labels=["op=coerce", "op=default", "op=add_missing", "op=filter", "op=drop", "kind=series",
                             "result-differs-from-input", "outcome=ok"]),
 ]
+
+from . import plx  # noqa: E402
+
+FAMILIES.append(
+    Family("polars", plx.eval_c03,
+           strategy=lambda: plx.strat_case(parsers="many", containers=("df", "df", "lf_full"), drop_rate=2),
+           n_quick=350, n_thorough=3000, shards_quick=3, shards_thorough=12,
+           required_labels=["container=lf_full", "outcome=ok", "result-differs-from-input", "op=coerce", "op=default",
+                            "op=add_missing"]))
 
 
 def selftest():
